@@ -49,6 +49,7 @@ impl Stage for C14Diff {
 pub fn replay(rep: &Report, stage_name: &str, j: &serde_json::Value) -> i32 {
     match stage_name {
         "container-seminaive-vs-naive" => crate::registry::replay_stage(rep, &C14Diff, j),
+        "many-containers" => crate::registry::replay_stage(rep, &ManyContainers, j),
         _ => crate::registry::replay_stage(rep, &stage(), j),
     }
 }
@@ -66,4 +67,202 @@ pub fn run(rep: &Report) {
     rep.explore(&st, rep.tier.pick(6000, 100_000), 500);
     rep.run_regressions(&C14Diff);
     rep.explore(&C14Diff, rep.tier.pick(3000, 50_000), 500);
+    // > 1000 containers: incremental container rebuild
+    rep.run_regressions(&ManyContainers);
+    rep.explore(&ManyContainers, rep.tier.pick(64, 2000), 80);
+    let inc = crate::runner::path_counters().get("container_rebuild_incremental").copied().unwrap_or(0);
+    rep.extra("incremental_container_rebuilds_entered", serde_json::json!(inc));
+}
+
+// ---------------------------------------------------------------------------
+// many-containers stage: > 1000 containers of one sort so that a small union batch takes the INCREMENTAL
+// container rebuild (val_index driven), with union histories that merge containers in both id orders
+// ---------------------------------------------------------------------------
+
+use crate::prog::*;
+use crate::refegg::{Limits, Model};
+
+pub struct ManyContainers;
+
+fn mc_sig(kind: ContKind) -> Sig {
+    let mut sig = Sig::default();
+    sig.sorts.push("S".into());
+    sig.conts.push(ContDecl { name: "K0".into(), kind, elem: Ty::Eq(0) });
+    sig.conts.push(ContDecl { name: "K1".into(), kind: ContKind::Vec, elem: Ty::Cont(0) });
+    let ctor = |name: &str, args: Vec<Ty>| FuncDecl { name: name.into(), kind: FKind::Ctor { cost: None, unextractable: false }, args, out: Ty::Eq(0) };
+    sig.funcs.push(ctor("Num", vec![Ty::I64])); // 0
+    sig.funcs.push(ctor("W", vec![Ty::Cont(0)])); // 1
+    sig.funcs.push(ctor("V", vec![Ty::Cont(1)])); // 2
+    for n in ["a", "b", "c", "d"] {
+        sig.funcs.push(ctor(n, vec![])); // 3..6
+    }
+    sig.funcs.push(FuncDecl { name: "R".into(), kind: FKind::Rel, args: vec![Ty::Eq(0)], out: Ty::I64 }); // 7
+    sig.rulesets.push("fill".into());
+    sig.rulesets.push("later".into());
+    sig
+}
+
+impl Stage for ManyContainers {
+    type Input = Prog;
+    fn name(&self) -> &'static str {
+        "many-containers"
+    }
+    fn decode(&self, s: &mut Src) -> Prog {
+        let kind = *s.pick(&[ContKind::Vec, ContKind::Set, ContKind::MultiSet, ContKind::Vec]);
+        let sig = mc_sig(kind);
+        let lit = crate::pgen::cont_ctor(kind).to_string();
+        let n = 1050 + s.below(400) as i64;
+        let num = |i: i64| Term::App(0, vec![Term::I(i)]);
+        let leaf = |k: usize| Term::App(3 + k, vec![]);
+        let cont = |es: Vec<Term>| Term::Prim(lit.clone(), es);
+        let mut cmds = vec![];
+        // leaves first (small ids), in a generated order: which id survives a later merge depends on it
+        let mut order = vec![0usize, 1, 2, 3];
+        for i in (1..4).rev() {
+            order.swap(i, s.below(i + 1));
+        }
+        for k in &order {
+            cmds.push(Cmd::Act(Action::Expr(leaf(*k))));
+        }
+        // a few containers over the leaves, again in a generated order (registration order = container id order)
+        let n_pre = 2 + s.below(4);
+        for _ in 0..n_pre {
+            let k = 1 + s.below(2);
+            let es = (0..k).map(|_| leaf(s.below(4))).collect();
+            cmds.push(Cmd::Act(Action::Expr(Term::App(1, vec![cont(es)]))));
+        }
+        // outer containers over inner ones (two or three rows, so that a union can make two outer containers equal
+        // and a later union rewrites a shared inner container in place)
+        let n_nested = 1 + s.below(3);
+        for _ in 0..n_nested {
+            let inner = cont(vec![leaf(s.below(4))]);
+            cmds.push(Cmd::Act(Action::Expr(Term::App(2, vec![Term::Prim("vec-of".into(), vec![inner])]))));
+        }
+        // filler: one container per Num
+        for i in 0..n {
+            cmds.push(Cmd::Act(Action::Expr(num(i))));
+        }
+        let (x, i) = (Term::Var("x".into()), Term::Var("i".into()));
+        cmds.push(Cmd::Rule {
+            body: vec![Fact::Eq(x.clone(), Term::App(0, vec![i]))],
+            head: vec![Action::Expr(Term::App(1, vec![cont(vec![x.clone()])]))],
+            opts: RuleOpts { ruleset: Some(0), ..Default::default() },
+        });
+        cmds.push(Cmd::RunN { rs: Some(0), n: 1, until: vec![] });
+        // a rule that matches through a container literal (fires only when the container really became canonical)
+        let y = Term::Var("y".into());
+        cmds.push(Cmd::Rule {
+            body: vec![Fact::Eq(y.clone(), Term::App(1, vec![cont(vec![leaf(s.below(4))])]))],
+            head: vec![Action::Expr(Term::App(7, vec![y]))],
+            opts: RuleOpts { ruleset: Some(1), ..Default::default() },
+        });
+        // and one that reads through two levels of containers
+        let z = Term::Var("z".into());
+        cmds.push(Cmd::Rule {
+            body: vec![Fact::Eq(z.clone(), Term::App(2, vec![Term::Prim("vec-of".into(), vec![cont(vec![leaf(s.below(4))])])]))],
+            head: vec![Action::Expr(Term::App(7, vec![z]))],
+            opts: RuleOpts { ruleset: Some(1), ..Default::default() },
+        });
+        let n_ops = 3 + s.below(7);
+        for _ in 0..n_ops {
+            match s.below(8) {
+                0..=2 => cmds.push(Cmd::Act(Action::Union(leaf(s.below(4)), leaf(s.below(4))))),
+                3 => cmds.push(Cmd::Act(Action::Union(leaf(s.below(4)), num(s.range(0, 5))))),
+                4 => {
+                    let k = 1 + s.below(2);
+                    let es = (0..k).map(|_| leaf(s.below(4))).collect();
+                    cmds.push(Cmd::Act(Action::Expr(Term::App(1, vec![cont(es)]))));
+                }
+                5 => cmds.push(Cmd::RunN { rs: Some(1), n: 1, until: vec![] }),
+                6 => cmds.push(Cmd::Check(vec![Fact::Eq(Term::App(1, vec![cont(vec![leaf(s.below(4))])]), Term::App(1, vec![cont(vec![leaf(s.below(4))])]))])),
+                _ => cmds.push(Cmd::Act(Action::Union(num(s.range(0, 5)), num(s.range(0, 5))))),
+            }
+        }
+        Prog { sig, cmds }
+    }
+    fn render(&self, p: &Prog) -> serde_json::Value {
+        let t = p.cmd_texts();
+        let inserts = t.iter().filter(|l| l.starts_with("(Num ")).count();
+        let rest: Vec<&String> = t.iter().filter(|l| !l.starts_with("(Num ")).collect();
+        serde_json::json!({"declarations": p.sig.prelude(), "filler_leaves": inserts, "commands": rest})
+    }
+    fn simplify(&self, p: &Prog) -> Vec<Prog> {
+        let k = p.cmds.iter().position(|c| matches!(c, Cmd::RunN { .. })).map(|i| i + 1).unwrap_or(0);
+        let mut v = vec![];
+        for i in (k..p.cmds.len()).rev() {
+            let mut q = p.clone();
+            q.cmds.remove(i);
+            v.push(q);
+        }
+        v
+    }
+    fn check(&self, prog: &Prog) -> Outcome {
+        use super::{compare_dumps, declare, engine, step_both, Step};
+        let mut out = Outcome::new(fnv_str(&prog.text()));
+        let mut eg = engine();
+        if !declare(&mut eg, &prog.sig, &mut out) {
+            return out;
+        }
+        let mut model = Model::new(&prog.sig);
+        model.limits = Limits { max_rows: 20_000, max_matches: 2_000_000, max_saturate_iters: 10 };
+        let before = crate::runner::path_counters().get("container_rebuild_incremental").copied().unwrap_or(0);
+        let mut built = false;
+        let mut executed = 0usize;
+        for (i, c) in prog.cmds.iter().enumerate() {
+            match step_both(&mut eg, &mut model, &prog.sig, i, c, &mut out) {
+                Step::Stop => break,
+                Step::Both => {}
+            }
+            executed = i + 1;
+            if matches!(c, Cmd::RunN { rs: Some(0), .. }) {
+                built = true;
+            }
+            if !built {
+                continue;
+            }
+            if !compare_dumps(&eg, &model, &format!("after command #{i} `{}`", prog.sig.cmd(c)), &mut out) {
+                break;
+            }
+            if let Some(v) = crate::inv::check_all(&eg) {
+                out.fail(format!("many-containers:{}", v.sig), format!("after command #{i} `{}`: {}", prog.sig.cmd(c), v.detail));
+                break;
+            }
+        }
+        let after = crate::runner::path_counters().get("container_rebuild_incremental").copied().unwrap_or(0);
+        if after > before {
+            out.class("incremental-container-rebuild-entered(hook counter, process-wide)");
+        }
+        // the same program with 4 threads and all parallel cut-offs 0 (child process): parallel container rebuild;
+        // the final database must be isomorphic to the model's as well
+        if out.fail.is_none() && built {
+            use crate::runner::{run_in_child, ChildRun, RunCfg};
+            let env: Vec<(String, String)> = ["DB_LEVEL_OP", "INDEX_CONSTRUCTION", "REBUILD", "INTRA_CONTAINER", "INTER_CONTAINER", "TABLE_OP"]
+                .iter()
+                .map(|n| (format!("EGGLOG_PARALLEL_{n}_CUTOFF"), "0".to_string()))
+                .collect();
+            // only the commands both sides executed (checks that fail are fine: they do not change the database)
+            let mut lines = prog.sig.prelude();
+            lines.extend(prog.cmds.iter().take(executed).map(|c| prog.sig.cmd(c)));
+            let text = lines.join("\n");
+            match run_in_child(None, Some(&text), &RunCfg { threads: 4, ..RunCfg::default() }, &env, std::time::Duration::from_secs(120), None) {
+                ChildRun::Done(r) => {
+                    out.count("parallel_child_runs", 1);
+                    if r.paths.get("container_rebuild_parallel").copied().unwrap_or(0) > 0 {
+                        out.class("parallel-container-rebuild-entered(hook counter)");
+                    }
+                    let all_ran = r.cmds.len() == prog.sig.prelude().len() + executed;
+                    let md = crate::eng::canon_from_raw(&model.raw_dump(), &crate::eng::CanonOpts::default());
+                    let cd = crate::eng::CanonDump { tables: r.dump.clone() };
+                    if all_ran && cd != md {
+                        out.fail("parallel-run-differs-from-model", format!("with 4 threads and all parallel cut-offs 0 the final database (left) differs from the reference model (right):\n{}", cd.diff(&md)));
+                    }
+                }
+                ChildRun::Crashed(m) => out.fail(format!("parallel-child-crash:{}", crate::fw::panic_key(&m)), format!("4-thread cut-off-0 run crashed: {m}")),
+                ChildRun::Deadlock => out.fail("parallel-child-deadlock", "4-thread cut-off-0 run is quiescent and unfinished"),
+                _ => out.class("parallel-child-inconclusive"),
+            }
+        }
+        out.nontrivial = built && model.container_changed >= 1;
+        out
+    }
 }
